@@ -16,7 +16,8 @@ THEOREMS = [(M, "NQ.C04." + n) for n in [
     "add_spec", "sub_spec", "residue_spec", "addm_spec", "subm_spec", "residue_fits",
     "jmp_spec", "bez_spec", "bnz_spec", "beq_spec", "bne_spec", "blt_spec", "bge_spec", "nonbranch_pc",
     "run_det", "run_fuel_mono", "runAll_frame_apps",
-    "ret_reg_spec", "ret_reg_copy", "ret_arr_spec_partial", "ret_arr_frozen_partial",
+    "set_spec", "lea_spec", "load_spec", "undef_spec", "array_spec", "qalloc_spec", "qfree_spec",
+    "meas_spec", "hw_written_fits", "ret_reg_spec", "ret_reg_copy", "ret_arr_spec_partial", "ret_arr_frozen_partial",
     "ret_arr_alias_counterexample"]]
 TRANSLATORS = []
 LEVEL_TEXT = ("Lean theorems about the reference interpreter Model/Exec.lean (the instruction semantics written "
